@@ -7,6 +7,7 @@ CONSTANTS
   FixEnqueue = TRUE
   FixBatch = TRUE
   LossySend = TRUE
+  HasKeepalive = TRUE
 INVARIANTS TypeOK InSync InSyncUnlessAmbiguous SetTracksDeps NoDeadlock
-PROPERTIES Converges CallerReturns KeepsRetrying
+
 CHECK_DEADLOCK FALSE
